@@ -207,6 +207,38 @@ func perts() []pert {
 	add("nominated-long-ago", "nominated", func(g *gw, n *SNode) { g.at(1, "nominate", n.ID) })
 	add("nominated-refresh", "nominated", func(g *gw, n *SNode) { g.at(g.F-5*sec, "nominate", n.ID); g.at(g.F-2*sec, "refresh", n.ID) })
 	add("nominated-twice", "nominated", func(g *gw, n *SNode) { g.at(1, "nominate", n.ID); g.at(g.F-g.window()+1, "nominate", n.ID) })
+	// re-nomination INSIDE the running window must extend it: first at F-d2-d1, again at F-d2, with
+	// d1 < window (second call lands inside the first window) and d1+d2 >= window (the first window alone
+	// has expired at F); d2 around the window boundary decides.
+	for _, d2 := range []int64{-1, 0, 1} {
+		d2 := d2
+		for _, frac := range []int64{2, 4} {
+			frac := frac
+			add(fmt.Sprintf("renominated-inside-window%+d-d1=w/%d", d2, frac), "nominated", func(g *gw, n *SNode) {
+				w := g.window()
+				g.at(g.F-(w+d2)-w/frac, "nominate", n.ID)
+				g.at(g.F-(w+d2), "nominate", n.ID)
+			})
+		}
+	}
+	add("renominated-inside-half-window", "nominated", func(g *gw, n *SNode) {
+		w := g.window()
+		g.at(g.F-w/2-(w-1), "nominate", n.ID) // d1 = w-1 < w, d2 = w/2: only the second window covers F
+		g.at(g.F-w/2, "nominate", n.ID)
+	})
+	add("renominated-chain", "nominated", func(g *gw, n *SNode) {
+		w := g.window()
+		for i := int64(4); i >= 1; i-- { // four nominations, each inside the previous window; the last one w-1 before F
+			g.at(g.F-(w-1)-(i-1)*(w*3/4), "nominate", n.ID)
+		}
+	})
+	add("renominated-chain-refresh", "nominated", func(g *gw, n *SNode) {
+		w := g.window()
+		g.at(g.F-(w-1)-w/2, "nominate", n.ID)
+		g.at(g.F-(w-1)-w/4, "refresh", n.ID)
+		g.at(g.F-(w-1), "nominate", n.ID)
+		g.at(g.F-1, "refresh", n.ID)
+	})
 	add("nominated-other", "nominated", func(g *gw, n *SNode) { g.at(g.F-1, "nominate", "no-such-id") })
 	add("nominated-marked-unmarked", "nominated", func(g *gw, n *SNode) {
 		g.at(g.F-5*sec, "nominate", n.ID)
